@@ -1581,7 +1581,7 @@ class Evaluator:
                             self.stack.pop()
         return None
 
-    def static_impl(self, e):
+    def static_impl(self, e, by_head=False):
         """the implementation a trait-method call is statically dispatched to, when the receiver's type is literally the
         self type of one of the crate's impls (e.g. a Vec<T> method delegating to the [T] impl)"""
         tr = e.get('callee_trait')
@@ -1590,7 +1590,11 @@ class Evaluator:
         import re as _re
         ty = strip_refs(e.get('recv_ty', ''))
         for imp in self.crate.impls:
-            if imp.get('trait') == tr and _re.sub(r'/#\d+', '', strip_refs(imp.get('self_ty', ''))) == ty:
+            sty = _re.sub(r'/#\d+', '', strip_refs(imp.get('self_ty', '')))
+            same = sty == ty
+            if not same and by_head and '::' in ty and ty.split('<')[0] == sty.split('<')[0] and ty.split('<')[0] in self.crate.adts:
+                same = True     # an instance of a generic struct of this crate
+            if imp.get('trait') == tr and same:
                 for it in imp['items']:
                     if it['name'] == e.get('name'):
                         return it['path']
@@ -1618,10 +1622,11 @@ class Evaluator:
                         return self.unwrap_ret(self.eval_body(b, args, depth + 1))
                     finally:
                         self.stack.pop()
-        if impl_path is None and not same_method and body is not None and body.raw.get('impl_trait') and body.raw.get('impl_trait') == e.get('callee_trait'):
-            # another method of the same trait on a receiver of the impl's own type: statically dispatched; inlined when the
-            # target is a plain expression (no branching, no panic-capable site, no loop)
-            ip = self.static_impl(e)
+        if impl_path is None and not same_method and body is not None and e.get('callee_trait') and e.get('callee_local'):
+            # a trait method called on a receiver whose type is a concrete type of the crate (another method of the same
+            # trait on the impl's own type; `Slice::of(ts).service_needed(d)`): statically dispatched; inlined when the target
+            # is a plain expression (no branching, no panic-capable site, no loop)
+            ip = self.static_impl(e, by_head=True)
             b2 = self.crate.body(ip) if ip else None
             if b2 is not None and b2 is not body and not self.has_loop(b2) and depth < self.max_depth and ip not in [c for c, _, _ in self.stack]:
                 mark = len(self.events)
@@ -1632,7 +1637,13 @@ class Evaluator:
                     self.stack.pop()
                 plain = not any(isinstance(y, tuple) and y and y[0] in ('ite', 'match') for y in T.subterms(v)) and \
                     not any(x['kind'] in ('ret', 'panic', 'assign', 'mutcall', 'unwrap', 'index') for x in self.events[mark:])
-                if plain:
+                own_type = body.raw.get('impl_trait') == e.get('callee_trait')
+                # outside an impl of the trait, only *compositions* are seen through (a value expressed by the same trait's
+                # methods on the components, e.g. Slice / Aggregate); a leaf model (RBF) stays the abstraction the equations
+                # are written over
+                composed = any(isinstance(y, tuple) and len(y) == 3 and y[0] == 'call' and isinstance(y[1], str) and y[1].startswith(e['callee_trait'] + '::')
+                               for y in T.subterms(v))
+                if plain and (own_type or composed):
                     return v
                 del self.events[mark:]
         adj = e['recv'].get('adj') or []
@@ -1679,6 +1690,12 @@ class Evaluator:
         t = T.unroot(t)
         if self.iterish(t):
             return t
+        if isinstance(t, tuple) and len(t) == 2 and t[0] == 'arr' and 1 <= len(t[1]) <= 4:
+            # a short array literal iterated by value: once(a).chain(once(b))..
+            it = ('once', t[1][0])
+            for x in t[1][1:]:
+                it = ('chain', it, ('once', x))
+            return it
         return ('elems', t)
 
     def call_fn(self, path, targs, args, node, body, depth):
@@ -2010,6 +2027,12 @@ class Evaluator:
                 return T.cmp('Le', su[2], su[1]), T.sub(su[1], su[2])
             if su[0] == 'boolthen':
                 return su[1], su[2]
+            if su[0] in ('optproj', 'optmap') and isinstance(su[1], tuple) and su[1] and su[1][0] == 'first':
+                # an Option computed from a search (position / find().map(..)): Some iff the search hits
+                F = su[1]
+                hit = ('case', F, 'Some', 0)
+                pay = T.proj(hit, su[2]) if su[0] == 'optproj' else T.substitute(su[2][2], {T.bv(su[2][1]): hit})
+                return ('matches', F, 'Some'), (T.root(pay) if self.numericish(pay) else pay)
             if su[0] in ('first', 'last', 'front', 'back') and len(su) == 2:
                 # v.first() / v.last() is Some(v[0]) / Some(v[len - 1]) iff v is not empty
                 n = T.root(('len', su[1]))
